@@ -266,6 +266,8 @@ def gen_program(rng, size, maxdepth, nnames=4):
             if k == 'lambda' and fresh and rng.random() < 0.5:
                 for n in rng.sample(range(1, nnames + 1), rng.randint(1, 2)):
                     add('bind', n, 'param')
+                if rng.random() < 0.5:          # a default in the lambda header, often named like one of its parameters
+                    add('huse', prog[-1]['n'] if rng.random() < 0.6 else name())
                 continue
             if ph == 'iter':
                 if prog[-1]['t'] == 'target' and x < 0.4:
